@@ -139,6 +139,12 @@ Proof. exact ex_tree. Qed.
 Example C06_nonvacuous_run : exists r,
   align_with cos sin 0 ex_start ex_end (Some ex_restr) (Some [0%Z]) true true [] 0 = Ok r.
 Proof. exact ex_run_ok. Qed.
+(* the same pair with STEPS_FACTOR 1 (budget 3 passes without improvement) and a stream of three null
+   translations: three passes are executed, each accepted as "equal measure", and the call returns *)
+Example C06_nonvacuous_run_passes : exists r,
+  align_with cos sin 1 ex_start ex_end (Some ex_restr) (Some [0%Z]) true true ex_stream3 3 = Ok r /\
+  map sr_acc (ar_trace r) = [true; true; true] /\ map sr_kind (ar_trace r) = [0; 0; 0]%nat.
+Proof. exact ex_run3_ok. Qed.
 Example C06_nonvacuous_deform :
   eff_deform ex_start ex_end None = [0; 1; 2]%Z /\ ~ In 2%Z (eff_deform ex_start ex_end (Some [0; 1]%Z)).
 Proof. exact ex_deform. Qed.
